@@ -103,6 +103,12 @@ func ParseToken(tokenString string, claims any) ([]byte, error) {
 	if err != nil {
 		return nil, fmt.Errorf("%w: malformed jwt payload: %v", ErrParse, err)
 	}
+	// The payload of a JWT is a JSON object (RFC 7519, section 7.2). Anything else is
+	// rejected here: in particular the literal `null` would unmarshal without error
+	// and leave a pointer destination nil for the callers to dereference.
+	if trimmed := bytes.TrimLeft(payload, " \t\r\n"); len(trimmed) == 0 || trimmed[0] != '{' {
+		return nil, fmt.Errorf("%w: jwt payload is not a JSON object", ErrParse)
+	}
 	err = json.Unmarshal(payload, claims)
 	return payload, err
 }
